@@ -1746,8 +1746,11 @@ class rx:
             'kwargs': {},
             'reverse': False
         }
-        self._method = None
-        return self._clone(operation)
+        # Record the attribute access on a copy: this expression itself
+        # may still be used and must keep returning the attribute
+        new = self._clone(copy=True)
+        new._method = None
+        return new._clone(operation)
 
     def __getattribute__(self, name):
         self_dict = super().__getattribute__('__dict__')
